@@ -59,8 +59,11 @@ PROPS = {
         "trusted_base": _TRUSTED,
     },
     "C16": {
-        "module": "HqModel.Props.C16",
+        "module": "HqModel.Props.C16Full",
         "theorems": [
+            "HqModel.C16.c16_claim_nostop", "HqModel.C16.c16_tight_loop", "HqModel.C16.c16_enabled_nostop",
+            "HqModel.C16.c16_all", "HqModel.C16.c16_all_claim",
+            "HqModel.C16.c16_scatter", "HqModel.C16.c16_scatter_claim", "HqModel.C16.c16_scatter_unique", "HqModel.C16.c16_scatter_groups",
             "HqModel.C16.c16_grant_agrees_partial",
             "HqModel.C16.c16_claim_nostop_partial",
             "HqModel.C16.c16_single_fraction",
